@@ -563,7 +563,7 @@ func trExec1(raw json.RawMessage) interface{} {
 		select {
 		case <-ch:
 			return true
-		case <-time.After(8 * time.Second):
+		case <-time.After(3 * time.Second):
 			obs.Err = what
 			return false
 		}
@@ -601,7 +601,7 @@ func trExec1(raw json.RawMessage) interface{} {
 			}
 			select {
 			case syncCh <- cfg:
-			case <-time.After(8 * time.Second):
+			case <-time.After(3 * time.Second):
 				obs.Err = "registry run loop does not take the snapshot"
 				return obs
 			}
@@ -617,7 +617,7 @@ func trExec1(raw json.RawMessage) interface{} {
 				if observerIdx >= 0 && len(e.Del)+len(e.Cre)+len(e.Upd) > 0 {
 					step.Events = append(step.Events, e)
 				}
-			case <-time.After(8 * time.Second):
+			case <-time.After(3 * time.Second):
 				obs.Err = "observer got no event"
 				return obs
 			}
